@@ -46,6 +46,15 @@ def params(tier, rng):
         out.append({"kind": "mirjalili", "m": 8, "Q": 5, "D": 1, "sample": 12, "sample_seed": rng.randrange(10 ** 6)})
         out.append({"kind": "hendrix", "m": 2, "Qa": 40, "Qb": 25, "sample": 1, "sample_seed": rng.randrange(10 ** 6)})
         out.append({"kind": "forest", "S": 2 ** 20 + 3, "p": 0.25, "sample": 200, "sample_seed": rng.randrange(10 ** 6)})
+    # the same dynamics after the problem has been rebuilt from its configuration through YAML (the route restore() takes):
+    # strings, tuples and numbers come back as other objects / types
+    rebuilt = [dict(P, route="yaml") for P in rng.sample([q for q in out if not q.get("sample")], 12 if tier == "quick" else 60)]
+    for kind in ("forest", "demoor", "hendrix", "mirjalili"):
+        if not any(P["kind"] == kind for P in rebuilt):
+            rebuilt.append(dict(next(q for q in out if q["kind"] == kind), route="yaml"))
+    if not any(P["kind"] == "demoor" and P["fifo"] for P in rebuilt):
+        rebuilt.append(dict(next(q for q in out if q["kind"] == "demoor" and q["fifo"]), route="yaml"))
+    out += rebuilt
     for P in out:
         P["coef"] = rng.choice(COEFS[P["kind"]])
     return out
